@@ -49,7 +49,9 @@ def run(tier, seed, replay=None):
     cases = load_replay_case(replay) if replay else (lock_cases(tier, rng) + stress_cases(tier)
                                                        + ileave.cases("subject", tier, rng, "is") + ileave.cases("behavior", tier, rng, "ib")
                                                        + ileave2.cases(tier, rng))
-    correspond(rep, "C10", cases, "C10_no_deadlock / C10_callbacks_are_exclusive / C10_*_disciplined / C10_cancel_waits_for_running_poll")
+    # the thorough tier runs ~2.2 million schedules on real threads: give the harness the time
+    correspond(rep, "C10", cases, "C10_no_deadlock / C10_callbacks_are_exclusive / C10_*_disciplined / C10_cancel_waits_for_running_poll",
+               impl_timeout=900 if tier == "quick" else 2700)
     c = rep.coverage
     hist = {}
     for _, _, t in cases:
